@@ -214,9 +214,22 @@ func (p *Prog) classifyMapRange(rng *ssa.Range) rangeVerdict {
 							// accumulation handled through the value's definition below
 						}
 					}
-				} else if _, isIdx := x.Addr.(*ssa.IndexAddr); isIdx {
-					// slice element store: position-dependent only if the index is loop-carried; conservatively ordered
-					set(fmt.Sprintf("store into a slice element at %s", p.instrPos(x)))
+				} else if ia, isIdx := x.Addr.(*ssa.IndexAddr); isIdx {
+					// slice element store: position-dependent only if the index is loop-carried; conservatively ordered —
+					// unless the slice is one made in this function and sorted after the loop (`out[next] = k; next++`
+					// is append spelled with an index)
+					sortedAfter := false
+					for _, o := range append(p.origins(ia.X, OriginOpts{}), ia.X) {
+						if mk, ok := o.(*ssa.MakeSlice); ok && mk.Parent() == fn && p.sortedLater(fn, mk, loop) {
+							sortedAfter = true
+						}
+					}
+					if sortedAfter {
+						verdict.sorted = true
+						set(fmt.Sprintf("slice filled by index at %s", p.instrPos(x)))
+					} else {
+						set(fmt.Sprintf("store into a slice element at %s", p.instrPos(x)))
+					}
 				}
 			case *ssa.BinOp:
 				if x.Op == token.ADD && isString(x.Type()) {
